@@ -365,9 +365,9 @@ class Wire:
             raise NotImplementedError
         self.remote_peer = node.lp.selector.map[self.node_sock][1]
 
-    def hello(self, nonce=12345, my_port=2412):
+    def hello(self, nonce=12345, my_port=2412, user_agent=b"harness"):
         from ipaddress import IPv6Address
-        return M.HelloMessage([M.SupportedVersion(0)], IPv6Address("::FFFF:%s" % self.node.host), 2412, IPv6Address("0::0"), my_port, nonce, b"harness")
+        return M.HelloMessage([M.SupportedVersion(0)], IPv6Address("::FFFF:%s" % self.node.host), 2412, IPv6Address("0::0"), my_port, nonce, user_agent)
 
     def frame(self, message, in_response_to=0, context=7):
         self.msg_id += 1
@@ -405,9 +405,9 @@ class Wire:
             self.rx = self.rx[8 + n:]
         return self.received
 
-    def greet(self, nonce=12345, my_port=2412):
+    def greet(self, nonce=12345, my_port=2412, user_agent=b"harness"):
         """complete the greeting in both directions"""
-        self.send(self.hello(nonce, my_port))
+        self.send(self.hello(nonce, my_port, user_agent))
         self.net.step(self.node)
         self.deliver()
 
